@@ -301,6 +301,9 @@ fn next_bytes<'s>(
     });
     let (_, next) = bytes.split_at(offset.unwrap_or(bytes.len()));
     *bytes = next;
+    if offset.is_some() && *state != State::Utf8 {
+        *state = State::Ground;
+    }
 
     let offset = bytes.iter().copied().position(|b| {
         if *state == State::Utf8 {
